@@ -31,12 +31,6 @@ Definition run_pop (c : string * list string * list string) : list tuple :=
           ++ check_output_refs (action_outputs_type popular_table (Some spec) None) refs).
 
 (* (B) a step using a generated local action "./act" *)
-Definition local_meta (ins : list (string * adecl)) (outs : list string) : option ameta :=
-  match derive_action_inputs ins, derive_action_outputs outs with
-  | Some i, Some o => Some {| am_inputs := i; am_outputs := o; am_skip_inputs := false; am_skip_outputs := false |}
-  | _, _ => None
-  end.
-
 Definition run_local (c : list (string * adecl) * list string * list string * list string) : list tuple :=
   let '(ins, outs, names, refs) := c in
   let m := local_meta ins outs in
@@ -45,16 +39,6 @@ Definition run_local (c : list (string * adecl) * list string * list string * li
 
 (* (C) a job calling a generated reusable workflow; [ast] = the callee is part of
    the same run, so its interface may come from its AST *)
-Definition wf_meta (ast : bool) (ins : list (string * wdecl)) (secs : list (string * option bool)) (outs : list string) : wmeta :=
-  if ast then
-    {| wm_inputs := derive_wf_inputs_ast (parse_wc_inputs ins);
-       wm_secrets := derive_wf_secrets_ast secs;
-       wm_outputs := derive_wf_outputs_ast outs |}
-  else
-    {| wm_inputs := derive_wf_inputs_file ins;
-       wm_secrets := derive_wf_secrets_file secs;
-       wm_outputs := derive_wf_outputs_file outs |}.
-
 Definition run_wf (c : bool * list (string * wdecl) * list (string * option bool) * list string
                        * list (string * cvalue) * ysecrets * list string) : list tuple :=
   let '(ast, ins, secs, outs, with_, sec, refs) := c in
